@@ -130,7 +130,7 @@ def run_property(ctx, module, vo, files, build_scripts, search, what):
     """build_scripts(ctx, scale) -> {build: lines};  search(ctx, scale, hints) -> list of (desc, replay, key) concrete failures."""
     st = coq.proof_stage(ctx, module, vo, files)
     proofs_ok = finish_proof(ctx, st)
-    scale = 1 if ctx.tier == 'quick' else 12
+    scale = 1 if ctx.tier == 'quick' else int(os.environ.get('VERIF_THOROUGH_SCALE', '48'))
     try:
         scripts = build_scripts(ctx, scale)
         mism = correspondence(ctx, scripts)
